@@ -24,7 +24,7 @@ ASSUMPTIONS = ["the two methods write disjoint persistent variables and do not a
                "the interpreter is taken as the executor (validated by C01)"]
 BUDGET_S = {"quick": 150, "thorough": 1500}
 
-BASE = dict(exits=False, yields=False, time_advance=False, alias_arrays=False, max_ops=7, max_phases=2,
+BASE = dict(exits=False, yields=True, time_advance=False, alias_arrays=False, max_ops=7, max_phases=2,
             dead_code=False, raise_=False,
             extra_kinds=("if", "if", "if", "if", "newarr", "newarr", "arrwrite", "arrwrite", "arrwrite"))
 
@@ -34,7 +34,7 @@ def pairs(draw):
     a = draw(methods(BASE))
     force = [(p["name"], p["next"]) for p in a["phases"]]
     b = draw(methods(dict(BASE, force_phases=force)))
-    pred = draw(st.sampled_from(["none", "nonpersistent", "nonpersistent", "keep_one"]))
+    pred = draw(st.sampled_from(["none", "nonpersistent", "nonpersistent", "keep_one", "also_p"]))
     # a phase that exists in one method only (must be taken over unchanged); nothing points to it
     extra = draw(st.sampled_from(["none", "none", "a", "b", "both"]))
     first = a["phases"][0]["name"]
@@ -98,6 +98,9 @@ def rename_method(method, ren):
                 walk(op[2])
                 if op[3]:
                     walk(op[3])
+            elif k == "yield":
+                op[1] = tr(op[1])
+                op[3] = tr(op[3])
     for ph in m["phases"]:
         walk(ph["body"])
     for n in list(m["state"]):
@@ -112,6 +115,9 @@ def prepare(case):
     a, b = case["a"], case["b"]
     wa, wb = written_persistent(a), written_persistent(b)
     ren = {n: n + "B" for n in (wa | wb) if n not in ("<t>", "<dt>")}
+    if case["pred"] == "also_p":
+        # here it is the fusion that is asked to keep the <p> variables apart
+        ren = {n: v for n, v in ren.items() if not n.startswith("<p>")}
     b2 = rename_method(b, ren)
     return a, b2
 
@@ -131,6 +137,10 @@ def predicate(kind, a_names, b_names):
         return None, (lambda n: not is_persistent(n))
     if kind == "nonpersistent":
         f = lambda n: not is_persistent(n)   # noqa: E731
+        return f, f
+    if kind == "also_p":
+        # the caller asks for the second method's <p> variables to be kept apart as well
+        f = lambda n: not is_persistent(n) or n.startswith("<p>")   # noqa: E731
         return f, f
     clash = sorted(n for n in a_names & b_names if not is_persistent(n) and not n.startswith("<cond>"))
     keep = clash[0] if clash else None
@@ -341,8 +351,8 @@ def check_case(case):
             elif y in pa_names:
                 return "phase %s: the second method's %s (now %s) collides with a name of the first method" % (pname, x, y), info
     # ---- behavioural oracle
-    if case["pred"] == "keep_one":
-        info["behaviour"] = "skipped (shared temporary requested)"
+    if case["pred"] in ("keep_one", "also_p"):
+        info["behaviour"] = "skipped (shared temporary / renamed persistent variables requested)"
         return None, info
     state = union_state(a, b)
     fm = make_python_functions()
